@@ -1,6 +1,6 @@
 (* C23  Suppressions hide exactly the matching findings.
    Statements only; every proof is `exact <lemma>`. *)
-From CV Require Import Base.Bytes Base.Glob Base.GlobProofs Supp.Defs Supp.Proofs Supp.ListProofs.
+From CV Require Import Base.Bytes Base.Glob Base.GlobProofs Base.GlobTermination Supp.Defs Supp.Proofs Supp.ListProofs.
 
 (* the declarative glob language: '*' any sequence, '?' one character *)
 Theorem C23_glob_language p n : glob_spec p n = true <-> gmatch p n.
@@ -13,6 +13,18 @@ Theorem C23_matchglob_spec fuel pattern name b :
   matchglob_fuel fuel pattern name = Some b -> b = glob_spec (cstr pattern) (cstr name).
 Proof. exact (matchglob_fuel_spec fuel pattern name b). Qed.
 Print Assumptions C23_matchglob_spec.
+
+(* ... and it always answers: an explicit fuel bound (|name|+1)^(stars+1) suffices, so the code's
+   unbounded loop terminates on every input and returns the language's verdict *)
+Theorem C23_matchglob_total pattern name :
+  matchglob_fuel (S (S (length (cstr name)) ^ S (stars (cstr pattern)))) pattern name
+  = Some (glob_spec (cstr pattern) (cstr name)).
+Proof.
+  destruct (matchglob_fuel _ pattern name) as [b|] eqn:E.
+  - f_equal. exact (matchglob_fuel_spec _ pattern name b E).
+  - exfalso. exact (matchglob_fuel_terminates pattern name E).
+Qed.
+Print Assumptions C23_matchglob_total.
 
 (* one suppression against one finding: Matched exactly on the documented rule *)
 Theorem C23_is_suppressed_matches_doc pm s e r :
